@@ -117,7 +117,7 @@ func goid() int {
 
 type sched struct {
 	mu      sync.Mutex
-	byGoid  map[int]int      // goroutine id -> thread index
+	byGoid  map[int]int       // goroutine id -> thread index
 	parked  map[int]chan bool // thread index -> release channel while parked at a yield point
 	point   map[int]string
 	done    map[int]bool
@@ -287,7 +287,14 @@ func genC10(r *Rng, n int, tier string, emit func(Case)) {
 			for k := 0; k < rr.Range(2, 10); k++ {
 				switch rr.Intn(9) {
 				case 0:
-					ops = append(ops, J{"op": "load", "filter": ""})
+					if rr.Bool() {
+						ops = append(ops, J{"op": "load", "filter": ""})
+					} else {
+						// a filtered load (what the debug controller and debug-mode renders do): template names, proper
+						// prefixes of names and of directory paths, and prefixes that match nothing
+						fs := []string{"a", "a/b", "a/b/c", "ab", "shop", "shop/cart", "shop/cart.partial", "sh", "x", "x.y", "deep/er", "deep/er/est/page", "home", "zzz"}
+						ops = append(ops, J{"op": "load", "filter": fs[rr.Intn(len(fs))]})
+					}
 				case 1, 2, 3, 4:
 					ops = append(ops, J{"op": "render", "name": anyName()})
 				case 5:
